@@ -309,6 +309,12 @@ def r2_components(ctx, g, handlers):
                 continue
             # `TABLE.get(text, text)` with a constant table is the chain `v1 if text == k1 else ... else text`
             a0 = F.joined_text(sp, made[-1].args[0])
+
+            class _Joins(ast.NodeTransformer):       # ''.join(<local list filled piece by piece>) anywhere inside the text expression
+                def visit_Call(self, c_):
+                    c_ = self.generic_visit(c_)
+                    return F.joined_text(sp, c_)
+            a0 = _Joins().visit(clone(a0))
             reps = _repeated_literals(ctx, eb0, a0, sp.conds)
             if reps:
                 # `'=' * f(len(ctx.EQUAL()))`: one variant per count the grammar allows (1..3), the same count in the text and in
